@@ -4,7 +4,7 @@
     Z, positive, nat stay the extracted inductives. *)
 From Coq Require Import ZArith List String.
 From Coq Require Import ExtrOcamlBasic ExtrOcamlString.
-From TV Require Import Layout.Types gen.Tables gen.Pinned Model.Monad Model.Ints Model.Decoder Model.Message Model.Pump Model.Show Model.Attr Spec.Value Spec.Message.
+From TV Require Import Layout.Types gen.Tables gen.Pinned Model.Monad Model.Ints Model.Decoder Model.Message Model.Pump Model.Show Model.Attr Model.RC Spec.Value Spec.Message.
 
 Definition tables_current : tables := Tables.T.
 Definition tables_pinned : tables := Pinned.T.
@@ -31,9 +31,18 @@ Definition run_attr (p : prim) (v : Z) : string :=
             (String.append ":"%string (show_row (bit_row nbits (snd nm) v))))))
          (attr_masks p)).
 
+(** response code: text|name:mask:details,... *)
+Definition run_rc (cur : bool) (v : Z) : string :=
+  let T := if cur then Tables.T else Pinned.T in
+  let d := if cur then Tables.rc_default_name else Pinned.rc_default_name in
+  String.append (rc_text T d v) (String.append "|"%string
+    (sconcat ","%string (map (fun r => String.append (fst (fst r)) (String.append ":"%string
+        (String.append (dec_string (snd (fst r))) (String.append ":"%string (snd r))))) (rc_rows T d v)))).
+Definition run_rc_spec (v : Z) : string := rc_render Pinned.T Pinned.rc_default_name (classify v).
+
 Extraction "Extract/model.ml"
   tables_current tables_pinned prims_current prims_pinned
-  run_decode run_obj run_spec run_attr find_type
+  run_decode run_obj run_spec run_attr run_rc run_rc_spec find_type
   prim_text prim_bytes valid representable pname pwidth psigned pkind_
   hex2 dec_string show_hex_
   RType RCommand RResponse RStream.
